@@ -355,7 +355,11 @@ func (r *blockReader) Value(seg Segment) []byte {
 		if i < 0 {
 			i = s.Start
 		}
-		ret = s.ConcatPadding(ret)
+		// the padding belongs to the head of the line: a segment that starts
+		// in the middle of a line does not include it
+		if i == s.Start {
+			ret = s.ConcatPadding(ret)
+		}
 		for ; i < seg.Stop && i < s.Stop; i++ {
 			ret = append(ret, r.source[i])
 		}
